@@ -1,0 +1,51 @@
+//go:build verif
+
+package l1infotreesync
+
+import (
+	"context"
+	"database/sql"
+
+	"github.com/agglayer/aggkit/sync"
+	"github.com/agglayer/aggkit/tree"
+	"github.com/ethereum/go-ethereum/common"
+)
+
+// NewVerifC11Sync builds the real L1InfoTreeSync facade around a real processor (real SQLite store on dbPath)
+// without driver or downloader: blocks are fed by VerifC11ProcessBlock. Plain functions (not methods), so the
+// method set of *L1InfoTreeSync stays exactly the product's.
+func NewVerifC11Sync(dbPath string) (*L1InfoTreeSync, error) {
+	p, err := newProcessor(dbPath)
+	if err != nil {
+		return nil, err
+	}
+	return &L1InfoTreeSync{processor: p}, nil
+}
+
+// VerifC11ProcessBlock hands one block (Events are l1infotreesync.Event values) to the real processor.
+func VerifC11ProcessBlock(ctx context.Context, s *L1InfoTreeSync, b sync.Block) error {
+	return s.processor.ProcessBlock(ctx, b)
+}
+
+// VerifC11Reorg calls the real processor's Reorg.
+func VerifC11Reorg(ctx context.Context, s *L1InfoTreeSync, firstReorgedBlock uint64) error {
+	return s.processor.Reorg(ctx, firstReorgedBlock)
+}
+
+// VerifC11DB returns the processor's SQLite handle (fault-injection triggers).
+func VerifC11DB(s *L1InfoTreeSync) *sql.DB { return s.processor.db }
+
+// VerifC11L1InfoTree returns the processor's append-only L1 info tree (in-memory lastIndex via tree.VerifLastIndex).
+func VerifC11L1InfoTree(s *L1InfoTreeSync) *tree.AppendOnlyTree { return s.processor.l1InfoTree }
+
+// VerifC11IsHalted reports the processor's halted flag.
+func VerifC11IsHalted(s *L1InfoTreeSync) bool { return s.processor.isHalted() }
+
+// VerifC11Close closes the store.
+func VerifC11Close(s *L1InfoTreeSync) error { return s.processor.db.Close() }
+
+// VerifC11Appender returns the real log -> Event conversion table of the downloader (buildAppender) bound to no
+// client: only the Parse* functions of the contract bindings are used, no RPC call is made.
+func VerifC11Appender(globalExitRoot, rollupManager common.Address) (sync.LogAppenderMap, error) {
+	return buildAppender(nil, globalExitRoot, rollupManager, FlagAllowWrongContractsAddrs)
+}
